@@ -319,7 +319,17 @@ func TestC11Isolation(t *testing.T) {
 					s.Quiesce()
 					before := p.cli.VerifDigest()
 					d0 := s.Delivered
-					s.Inject(p.addr.String(), strangerAddr, dgs[rapid.IntRange(0, len(dgs)-1).Draw(rt, "srvDg")], 0)
+					// the third address: unrelated, the peer's IP with another port, or
+					// another IP with the peer's port (a filter that only looks at one of
+					// the two lets one of these through)
+					third := net.Addr(strangerAddr)
+					switch rapid.IntRange(0, 2).Draw(rt, "thirdKind") {
+					case 1:
+						third = &net.UDPAddr{IP: laddr.IP, Port: laddr.Port + 1}
+					case 2:
+						third = &net.UDPAddr{IP: net.IPv4(10, 0, 0, 77), Port: laddr.Port}
+					}
+					s.Inject(p.addr.String(), third, dgs[rapid.IntRange(0, len(dgs)-1).Draw(rt, "srvDg")], 0)
 					s.Quiesce()
 					for s.NextAt() >= 0 && s.NextAt() <= s.Now() {
 						s.Step(s.Now())
